@@ -53,7 +53,10 @@ async fn echo_server(bind: &str) -> Option<Server> {
 }
 
 #[derive(Clone, Debug)]
-enum Op { Send(usize), Burst(usize, usize), Dns(usize), Wait(u64) }
+enum Op { Send(usize), Burst(usize, usize), Dns(usize), Wait(u64),
+    /// the relay of client socket A's association dies (its port now answers "unreachable"), a datagram bounces off it, and
+    /// the multiplexer must go on and client socket B's flows must not be disturbed; A's flows work again once they have all expired and a new association is made
+    RelayDies }
 
 struct Out { bad: Vec<(String, Value)>, tallies: BTreeMap<String, u64>, inconclusive: Vec<String>, ops: usize, sample: Value }
 
@@ -98,6 +101,7 @@ async fn history(root: std::path::PathBuf, seed: u64, h: u64, t_ms: u64) -> Out 
         // flow 1 expires while flow 0 of the same client socket stays busy
         ops.extend([Op::Send(1), Op::Send(0), Op::Wait(t_ms / 2), Op::Send(0), Op::Wait(t_ms / 2), Op::Send(0), Op::Wait(t_ms / 2), Op::Send(0), Op::Send(1)]);
     }
+    if h % 4 == 2 { ops.extend([Op::Send(0), Op::Send(2), Op::RelayDies, Op::Send(2), Op::Send(0), Op::Send(1), Op::Send(3)]); }
     for _ in 0..r.range(8, 20) {
         ops.push(match r.below(12) {
             0..=4 => Op::Send(r.below(4) as usize),
@@ -113,6 +117,10 @@ async fn history(root: std::path::PathBuf, seed: u64, h: u64, t_ms: u64) -> Out 
     let mut seq = 0u64;
     let mut sent: Vec<(usize, Vec<u8>)> = vec![];
     let mut last_activity: Option<Instant> = None;
+    // datagrams of client socket A sent while its association's relay is dead are not judged (the proxy's relay is gone:
+    // nothing the endpoint could deliver through); a new association - after every flow of A has expired - works again
+    let mut degraded_from: Option<usize> = None;
+    let mut degraded_ranges: Vec<(usize, usize)> = vec![];
     for op in &ops {
         out.ops += 1;
         let mut send = |f: usize, sent: &mut Vec<(usize, Vec<u8>)>| {
@@ -125,6 +133,24 @@ async fn history(root: std::path::PathBuf, seed: u64, h: u64, t_ms: u64) -> Out 
             Op::Send(f) => { send(*f, &mut sent); last_activity = Some(Instant::now()); tokio::time::sleep(Duration::from_millis(r.below(8) + 2)).await; }
             Op::Burst(f, n) => { for _ in 0..*n { send(*f, &mut sent); } last_activity = Some(Instant::now()); tokio::time::sleep(Duration::from_millis(5)).await; }
             Op::Dns(f) => { *out.tallies.entry("s5: queries on port-53 flows (flow ends with the answer; siblings and later queries must work)".into()).or_insert(0) += 1; tokio::time::sleep(Duration::from_millis(40)).await; send(*f, &mut sent); last_activity = Some(Instant::now()); tokio::time::sleep(Duration::from_millis(100)).await; }
+            Op::RelayDies => {
+                // the association of client socket A is the first one opened in this history (flow 0 is sent first)
+                let first = s5.events().iter().find_map(|e| if let S5Event::Associate { assoc } = e { Some(*assoc) } else { None });
+                if let Some(a) = first {
+                    s5.kill_relays.lock().unwrap().insert(a);
+                    tokio::time::sleep(Duration::from_millis(30)).await;
+                    // two datagrams that are allowed to be lost: the first bounces off the dead relay, the second meets the error
+                    for _ in 0..2 {
+                        seq += 1;
+                        let p = format!("s5h{}lost{}", h, seq).into_bytes();
+                        let _ = tx.send(UdpIn { source: flows[0].0, destination: flows[0].1, app_name: None, payload: Bytes::copy_from_slice(&p) });
+                        tokio::time::sleep(Duration::from_millis(40)).await;
+                    }
+                    *out.tallies.entry("s5: relay of an association died (datagrams bounce): the multiplexer and the other client socket's flows go on".into()).or_insert(0) += 1;
+                    last_activity = Some(Instant::now());
+                    if degraded_from.is_none() { degraded_from = Some(sent.len()); }
+                }
+            }
             Op::Wait(ms) => {
                 let before = Instant::now();
                 tokio::time::sleep(Duration::from_millis(*ms)).await;
@@ -137,6 +163,8 @@ async fn history(root: std::path::PathBuf, seed: u64, h: u64, t_ms: u64) -> Out 
                     if g != 0 { out.bad.push(("s5: outbound_udp_sockets gauge does not return to zero after every flow expired".into(), json!({"kind":"udp-flows-socks5","gauge":g,"history":h,"T_ms":t_ms}))); }
                     else if live != 0 { out.bad.push(("s5: UDP associations stay open at the proxy after every flow expired".into(), json!({"kind":"udp-flows-socks5","associations_open_at_proxy":live,"history":h,"T_ms":t_ms}))); }
                     else { *out.tallies.entry("s5 quiescent: gauge == 0 and no association left at the proxy".into()).or_insert(0) += 1; }
+                    // every flow has expired: the dead association is gone with them
+                    if let Some(from) = degraded_from.take() { degraded_ranges.push((from, sent.len())); }
                 }
             }
         }
@@ -149,7 +177,9 @@ async fn history(root: std::path::PathBuf, seed: u64, h: u64, t_ms: u64) -> Out 
     let died = finished.load(Ordering::SeqCst);
     let delivered = delivered.lock().unwrap().clone();
     let all_servers: Vec<&Server> = servers.iter().chain(dns.iter()).collect();
-    for (f, payload) in &sent {
+    if let Some(from) = degraded_from.take() { degraded_ranges.push((from, sent.len())); }
+    for (k, (f, payload)) in sent.iter().enumerate() {
+        if flows[*f].0 == ca && degraded_ranges.iter().any(|(a, b)| k >= *a && k < *b) { *out.tallies.entry("s5: datagram sent into an association whose relay had died (not judged)".into()).or_insert(0) += 1; continue; }
         let dst = flows[*f].1;
         let arrived_at: Vec<SocketAddr> = all_servers.iter().filter(|s| s.received.lock().unwrap().iter().any(|p| p == payload)).map(|s| s.addr).collect();
         let w = |extra: Value| json!({"kind":"udp-flows-socks5","history":h,"T_ms":t_ms,"payload":String::from_utf8_lossy(payload),"flow":format!("{} -> {}", flows[*f].0, dst),"detail":extra,"ops":ops.iter().map(|o| format!("{:?}", o)).collect::<Vec<_>>()});
